@@ -346,7 +346,13 @@ CORPUS = [
     ("set", lambda: frozenset([1, 2])), ("iter", lambda: iter([1, 2, 3])),
     ("dt", lambda: datetime.datetime(2020, 1, 2, 3, 4, 5, tzinfo=UTC)), ("ts", lambda: datetime.timedelta(hours=1)),
     ("pairs", lambda: (("a", 1), ("b", 2))), ("regex", lambda: re.compile("[ab]")),
+    ("edict", lambda: utils.FrozenDict({})), ("fzero", lambda: 0.0), ("eset", lambda: frozenset()),
+    ("bigstr", lambda: "a" * 400), ("midstr", lambda: "a" * 60), ("biglist", lambda: tuple(range(40))), ("midlist", lambda: tuple(range(12))),
 ]
+LITERALS_OF = {"bigstr": "'%s'" % ("a" * 400), "midstr": "'%s'" % ("a" * 60),
+               "biglist": "[%s]" % ", ".join(str(i) for i in range(40)), "midlist": "[%s]" % ", ".join(str(i) for i in range(12)),
+               "str": "'abc'", "empty": "''", "int": "3", "zero": "0", "list": "[1, 2, 3]", "elist": "[]", "true": "true", "false": "false"}
+FALSY = ("zero", "empty", "false", "elist", "edict", "fzero", "eset")
 CORPUS_D = dict(CORPUS)
 ADDRESS = re.compile(r"0x[0-9a-fA-F]+")
 LAMBDAS = ["$", "true", "$ > 1", "1", "$1"]
@@ -393,12 +399,15 @@ def canon(v, depth=0):
     return ["object", type(v).__name__]
 
 
+_engine_override = [None]
+
+
 def evaluate(expr, ctx):
     old = signal.signal(signal.SIGALRM, _alarm)
     signal.alarm(4)
     random.seed(20260928)                 # the library's random()/shuffle-like functions use python's global generator
     try:
-        return ["ok", canon(expr(utils.NO_VALUE, ctx, sweep_engine()))]
+        return ["ok", canon(expr(utils.NO_VALUE, ctx, _engine_override[0] or sweep_engine()))]
     except Timeout:
         return ["timeout"]
     except RecursionError:
@@ -587,7 +596,8 @@ def forms(d, assignment, extras, explicit=()):
                     rest = spell_text_method(d, texts, etexts, k)
                     if rest is None:
                         return None
-                    expr = expressions.BinaryOperator(".", parse_args(first)[0], expressions.Function(fd.name, *parse_args(rest)), None)
+                    op = "?." if form == "method?." else "."
+                    expr = expressions.BinaryOperator(op, parse_args(first)[0], expressions.Function(fd.name, *parse_args(rest)), None)
             except NotExpressible:
                 return None
             return evaluate(expr, ctx)
@@ -596,6 +606,10 @@ def forms(d, assignment, extras, explicit=()):
             out.append(("function k=%d" % k, thunk))
         if fd.is_method and k >= 1 and given_first and fd.name != "#operator_.":
             out.append(("method k=%d" % k, lambda k=k, thunk=thunk: thunk(k, "method")))
+            a0 = assignment.get(d.vis[0].name)
+            if a0 is not None and a0 != ["V", "null"] and a0 != ["L", "null"] and fd.name != "#operator_?.":
+                # the other method-call operator: for a non-null receiver `?.` is `.`
+                out.append(("method ?. k=%d" % k, lambda k=k, thunk=thunk: thunk(k, "method?.")))
         # call(name, args, kwargs): plain values only, no empty slots
         # lazy Lambda parameters take part when their argument is a constant (call() hands over its value)
         lazy_ok = all(d.kinds[p.name] == "value" or
@@ -703,7 +717,8 @@ def gen_sweep_assignment(rng, d, omit):
         c = d.candidates(p)
         if not c:
             return None
-        asg[p.name] = list(rng.choice(c))
+        falsy = [x for x in c if x[0] == "V" and x[1] in FALSY]
+        asg[p.name] = list(rng.choice(falsy)) if falsy and d.vis and p is d.vis[0] and rng.random() < 0.4 else list(rng.choice(c))
     extras = []
     if d.star is not None and rng.random() < 0.6:
         c = d.candidates(d.star)
@@ -772,8 +787,46 @@ def oracle(run, deep):
     run.note("non-deterministic library functions (same spelling twice gave different results; compared by outcome class and "
              "result type only): %s" % (sorted(_nondeterministic) or "none"))
     composite_check(run, defs)
+    quota_sweep(run, defs)
     convention_check(run)
     custom_convention_check(run)
+
+
+def quota_sweep(run, defs):
+    """the spelling sweep on engines WITH yaql.memoryQuota / yaql.limitIterators, with argument values above and just
+    below the limits, passed as LITERALS in the expression text and as context variables: all spellings must agree"""
+    rng = run.rng
+    engines = [yaql.YaqlFactory().create(options={"yaql.memoryQuota": 300}),
+               yaql.YaqlFactory().create(options={"yaql.limitIterators": 20}),
+               yaql.YaqlFactory().create(options={"yaql.memoryQuota": 900, "yaql.limitIterators": 30})]
+    big = ("bigstr", "midstr", "biglist", "midlist", "str", "list", "empty", "elist")
+    usable = []
+    for d in defs:
+        if not d.supported:
+            continue
+        cands = {p.name: [c for c in d.candidates(p) if c[0] == "V" and c[1] in big] for p in d.bound if d.kinds[p.name] == "value"}
+        if any(cands.values()):
+            usable.append((d, cands))
+    try:
+        for d, cands in rng.sample(usable, min(run.n(45, 400), len(usable))):
+            _engine_override[0] = rng.choice(engines)
+            for as_literal in (True, False):
+                g = gen_sweep_assignment(rng, d, set())
+                if g is None:
+                    break
+                asg, extras = g
+                for name, cs in cands.items():
+                    if cs and rng.random() < 0.8:
+                        key = rng.choice(cs)[1]
+                        asg[name] = ["L", LITERALS_OF[key]] if as_literal and key in LITERALS_OF else ["V", key]
+                before = len(run.failures)
+                n = sweep_assignment(run, d, asg, extras)
+                run.count("quota_sweep:evaluations", n)
+                if len(run.failures) > before:
+                    run.failures[-1].data["engine_options"] = dict(_engine_override[0].options)
+                    return
+    finally:
+        _engine_override[0] = None
 
 
 def custom_convention_check(run):
@@ -946,6 +999,10 @@ def convention_check(run):
 
 def replay(run, data):
     d = data["data"]
+    if "engine_options" in d:
+        before = len(run.failures)
+        quota_sweep(run, registry_defs())
+        return len(run.failures) == before
     if "custom_convention" in d:
         before = len(run.failures)
         custom_convention_check(run)
